@@ -181,6 +181,9 @@ public:
     constexpr auto swap(tuple& other) noexcept((is_nothrow_swappable_v<Ts> && ...)) -> void { _impl.swap(other._impl); }
 };
 
+template <typename... Ts>
+tuple(Ts...) -> tuple<Ts...>;
+
 template <etl::size_t I, typename... Ts>
 struct tuple_element<I, tuple<Ts...>> {
     static_assert(I < sizeof...(Ts));
